@@ -1400,6 +1400,7 @@ func Run(r *common.Run) error {
 	pol := probe()
 	r.Exhaustive = append(r.Exhaustive, fmt.Sprintf("probed: panics recovered by negotiateServer (error,string,other)=%s, by negotiateClient=%s; negotiateServer gives up on a done context=%v", pol.srvPanic, pol.cliPanic, pol.looks))
 	genRoundC(r, rnd, pol)
+	genRoundD(r, rnd)
 
 	// ---- client role, scripted mechanisms: exhaustive over short peer scripts ----
 	depth := r.Pick(3, 4)
@@ -1639,6 +1640,162 @@ func Run(r *common.Run) error {
 		_ = runServer(r, srvCase{mechs: []string{"M2", "PLAIN", "M1"}, steps: sc, perm: perm, peer: peer}, "srv-random")
 	}
 	return nil
+}
+
+// stepShapes: every mechanism shape with at most maxMore Steps that say "more" - each with an
+// empty or a non-empty response - followed by a Step that is done (empty / non-empty final
+// data), fails with sasl.ErrAuthn, or fails otherwise.  The response bytes differ by position
+// (base+position) so that a response written at the wrong point shows.  (The hand-picked
+// shapes of the earlier rounds had an empty response only at the first Step.)
+func stepShapes(maxMore int, base byte) [][]step {
+	var out [][]step
+	var rec func(prefix []step)
+	rec = func(prefix []step) {
+		k := byte(len(prefix))
+		for _, last := range []step{{kind: "d"}, {kind: "d", resp: []byte{base + k}}, {kind: "a"}, {kind: "e"}} {
+			out = append(out, append(append([]step(nil), prefix...), last))
+		}
+		if len(prefix) == maxMore {
+			return
+		}
+		rec(append(append([]step(nil), prefix...), step{kind: "m"}))
+		rec(append(append([]step(nil), prefix...), step{kind: "m", resp: []byte{base + k}}))
+	}
+	rec(nil)
+	return out
+}
+
+// respSizes: lengths of a mechanism's response around the base64 quantum (0..4), and around the
+// sizes at which buffered writers / decoders of 512, 1024, 4096 bytes roll over.
+var respSizes = []int{0, 1, 2, 3, 4, 5, 6, 300, 383, 384, 385, 767, 768, 769, 3071, 3072, 3073, 5000}
+
+func sizedResp(n int, seed byte) []byte {
+	b := make([]byte, n)
+	for i := range b {
+		b[i] = seed + byte(i*7)
+	}
+	return b
+}
+
+// genRoundD: the full space of small mechanism shapes (where the response of a Step that says
+// "more" may be empty at ANY position) x short peer scripts, both roles; responses of every size
+// class at every position.
+func genRoundD(r *common.Run, rnd *common.Rand) {
+	cshapes := stepShapes(3, 0xA0)
+	for si, sc := range cshapes {
+		for n := 0; n <= 2; n++ {
+			enumerate(cliAlphabet, n, func(peer []string) {
+				_ = runClient(r, cliCase{mechs: []string{"M1"}, adv: []string{"M1"}, steps: sc, peer: peer}, fmt.Sprintf("cli-shape%d", si%4))
+			})
+		}
+		alpha := []string{"cv01", "c-", "sv02", "s-", "f", "cbad"}
+		if !r.Quick() {
+			alpha = cliAlphabet
+		}
+		enumerate(alpha, 3, func(peer []string) {
+			_ = runClient(r, cliCase{mechs: []string{"M1"}, adv: []string{"M1"}, steps: sc, peer: peer}, fmt.Sprintf("cli-shape%d", si%4))
+		})
+		// the complete exchange of this shape, the final element in both forms, and the
+		// premature <success/> at every point of it
+		nm := len(sc) - 1
+		var full []string
+		for k := 0; k < nm; k++ {
+			full = append(full, []string{"cv01", "c-"}[k%2])
+		}
+		for cut := 0; cut <= nm; cut++ {
+			for _, fin := range []string{"s-", "sv02"} {
+				peer := append(append([]string{}, full[:cut]...), fin)
+				_ = runClient(r, cliCase{mechs: []string{"M1"}, adv: []string{"M1"}, steps: sc, peer: peer}, "cli-shape-cut")
+				_ = runClient(r, cliCase{mechs: []string{"M1"}, adv: []string{"M1"}, steps: sc, peer: append(peer, "s-")}, "cli-shape-cut")
+			}
+		}
+	}
+	r.Exhaustive = append(r.Exhaustive, fmt.Sprintf("client role: all %d mechanism shapes (<= 3 Steps saying more, each with an empty or non-empty response, x 4 endings) x all peer scripts of length <= 2 over %d events", len(cshapes), len(cliAlphabet)))
+	sshapes := stepShapes(3, 0xB0)
+	for si, sc := range sshapes {
+		for n := 0; n <= 2; n++ {
+			enumerate(srvAlphabet, n, func(peer []string) {
+				_ = runServer(r, srvCase{mechs: []string{"M1", "M2"}, steps: sc, perm: "any", peer: peer}, fmt.Sprintf("srv-shape%d", si%4))
+			})
+		}
+		alpha := []string{"AM1/v01", "AM1/-", "Rv02", "R-", "B", "Rbad"}
+		if !r.Quick() {
+			alpha = srvAlphabet
+		}
+		enumerate(alpha, 3, func(peer []string) {
+			_ = runServer(r, srvCase{mechs: []string{"M1", "M2"}, steps: sc, perm: "any", peer: peer}, fmt.Sprintf("srv-shape%d", si%4))
+		})
+		nm := len(sc) - 1
+		peer := []string{"AM1/v01"}
+		for k := 0; k < nm; k++ {
+			peer = append(peer, []string{"R-", "Rv02"}[k%2])
+		}
+		for cut := 1; cut <= len(peer); cut++ {
+			_ = runServer(r, srvCase{mechs: []string{"M1", "M2"}, steps: sc, perm: "any", peer: peer[:cut]}, "srv-shape-cut")
+			_ = runServer(r, srvCase{mechs: []string{"M1", "M2"}, steps: sc, perm: "any", peer: append(append([]string{}, peer[:cut]...), "R-")}, "srv-shape-cut")
+		}
+	}
+	r.Exhaustive = append(r.Exhaustive, fmt.Sprintf("server role: all %d mechanism shapes x all peer scripts of length <= 2 over %d events", len(sshapes), len(srvAlphabet)))
+
+	// ---- responses of every size class at every position of a three-Step exchange ----
+	for _, n := range respSizes {
+		for pos := 0; pos < 3; pos++ {
+			kinds := []string{"m", "m", "d"}
+			var cs, ss []step
+			for k := 0; k < 3; k++ {
+				st := step{kind: kinds[k], resp: []byte{0xC0 + byte(k)}}
+				if k == pos {
+					st.resp = sizedResp(n, byte(0x11*(k+1)))
+				}
+				cs, ss = append(cs, st), append(ss, st)
+			}
+			for _, peer := range [][]string{{"cv01", "cv02", "s-"}, {"cv01", "sv02"}, {"cv01", "cv02"}, {"sv01"}} {
+				_ = runClient(r, cliCase{mechs: []string{"M1"}, adv: []string{"M1"}, steps: cs, peer: peer}, "cli-size")
+			}
+			for _, peer := range [][]string{{"AM1/v01", "Rv02", "R-"}, {"AM1/v01", "Rv02"}, {"AM1/v01", "B"}} {
+				_ = runServer(r, srvCase{mechs: []string{"M1"}, steps: ss, perm: "any", peer: peer}, "srv-size")
+			}
+		}
+	}
+	// ---- random shapes: longer, empty responses anywhere ----
+	nr := r.Pick(400, 6000)
+	for i := 0; i < nr; i++ {
+		var sc []step
+		for k, ns := 0, rnd.Intn(6); k < ns; k++ {
+			st := step{kind: "m"}
+			if rnd.Chance(1, 2) {
+				st.resp = sizedResp(1+rnd.Intn(5), byte(k))
+			}
+			sc = append(sc, st)
+		}
+		last := step{kind: []string{"d", "d", "d", "a", "e"}[rnd.Intn(5)]}
+		if last.kind == "d" && rnd.Chance(1, 2) {
+			last.resp = []byte{0xDD}
+		}
+		sc = append(sc, last)
+		n := rnd.Intn(len(sc) + 2)
+		cp := make([]string, n)
+		for k := range cp {
+			switch {
+			case rnd.Chance(1, 5):
+				cp[k] = cliAlphabet[rnd.Intn(len(cliAlphabet))]
+			case rnd.Chance(1, 4):
+				cp[k] = []string{"s-", "sv02"}[rnd.Intn(2)]
+			default:
+				cp[k] = []string{"cv01", "c-", "cv0203"}[rnd.Intn(3)]
+			}
+		}
+		_ = runClient(r, cliCase{mechs: []string{"M1"}, adv: []string{"M1"}, steps: sc, peer: cp}, "cli-shape-random")
+		sp := []string{[]string{"AM1/v01", "AM1/-", "AM1/eq"}[rnd.Intn(3)]}
+		for k := 1; k < n; k++ {
+			if rnd.Chance(1, 6) {
+				sp = append(sp, srvAlphabet[rnd.Intn(len(srvAlphabet))])
+			} else {
+				sp = append(sp, []string{"Rv02", "R-", "Req"}[rnd.Intn(3)])
+			}
+		}
+		_ = runServer(r, srvCase{mechs: []string{"M1"}, steps: sc, perm: "any", peer: sp}, "srv-shape-random")
+	}
 }
 
 // genRoundC: Steps and permission callbacks that panic (with an error, a string, another
